@@ -26,20 +26,30 @@ def cntMigr (st : ArbSt) (w k : Nat) : Nat := st.pods.countP fun q => q.wl == w 
 def cntUnav (st : ArbSt) (w k : Nat) : Nat :=
   st.pods.countP fun q => q.wl == w && ((q.ns == k && !podAvail q) || hasJobNs st k q)
 
-/-- API invariants (names are unique, a PodRef resolves to a pod of its own namespace) and the generator
-    invariant that `arbitrator.Filter` maintains (`no_second_job`): no pod has two open jobs. -/
+/-- job `j` is about pod `p` by the documented rule of existingPodMigrationJob: its PodRef carries the pod's UID,
+    or the pod's namespace/name -/
+def jmatch (j : JobA) (p : PodA) : Bool := (j.pod != 0 && j.uid == p.id) || j.pod == p.id
+
+/-- API invariants (names are unique, a PodRef resolves to a pod of its own namespace; a PodRef whose UID is that of
+    an existing pod does not name a DIFFERENT existing pod: its namespace/name is that pod's or resolves to nothing)
+    and the generator invariant that `arbitrator.Filter` maintains (`no_second_job`): no pod has two open jobs,
+    whether they refer to it by UID or by namespace/name. -/
 structure WF (st : ArbSt) : Prop where
   jobIds : (st.jobs.map (·.id)).Nodup
   podIds : (st.pods.map (·.id)).Nodup
   refNs : ∀ j ∈ st.jobs, ∀ p ∈ st.pods, p.id = j.pod → p.ns = j.ns
-  uniqueOpen : ∀ j1 ∈ st.jobs, ∀ j2 ∈ st.jobs, j1.phase ≤ 2 → j2.phase ≤ 2 → j1.pod ≠ 0 → j1.pod = j2.pod → j1 = j2
+  uidRef : ∀ j ∈ st.jobs, ∀ p ∈ st.pods, j.pod ≠ 0 → j.uid = p.id → (j.pod = p.id ∨ ∀ q ∈ st.pods, q.id ≠ j.pod)
+  uniqueOpen : ∀ j1 ∈ st.jobs, ∀ j2 ∈ st.jobs, j1.phase ≤ 2 → j2.phase ≤ 2 →
+    ∀ p ∈ st.pods, jmatch j1 p = true → jmatch j2 p = true → j1 = j2
 
 instance (st : ArbSt) : Decidable (WF st) :=
   if h : (st.jobs.map (·.id)).Nodup ∧ (st.pods.map (·.id)).Nodup ∧
       (∀ j ∈ st.jobs, ∀ p ∈ st.pods, p.id = j.pod → p.ns = j.ns) ∧
-      (∀ j1 ∈ st.jobs, ∀ j2 ∈ st.jobs, j1.phase ≤ 2 → j2.phase ≤ 2 → j1.pod ≠ 0 → j1.pod = j2.pod → j1 = j2)
-  then isTrue ⟨h.1, h.2.1, h.2.2.1, h.2.2.2⟩
-  else isFalse fun w => h ⟨w.jobIds, w.podIds, w.refNs, w.uniqueOpen⟩
+      (∀ j ∈ st.jobs, ∀ p ∈ st.pods, j.pod ≠ 0 → j.uid = p.id → (j.pod = p.id ∨ ∀ q ∈ st.pods, q.id ≠ j.pod)) ∧
+      (∀ j1 ∈ st.jobs, ∀ j2 ∈ st.jobs, j1.phase ≤ 2 → j2.phase ≤ 2 →
+        ∀ p ∈ st.pods, jmatch j1 p = true → jmatch j2 p = true → j1 = j2)
+  then isTrue ⟨h.1, h.2.1, h.2.2.1, h.2.2.2.1, h.2.2.2.2⟩
+  else isFalse fun w => h ⟨w.jobIds, w.podIds, w.refNs, w.uidRef, w.uniqueOpen⟩
 
 /-- executable form of `WF` (printed by the driver before every round, compared with the harness' own evaluation) -/
 def wfB (st : ArbSt) : Bool := decide (WF st)
@@ -51,6 +61,7 @@ structure StepRel (st st' : ArbSt) (f : JobA → JobA) (adm : Option JobA) : Pro
   pods : st'.pods = st.pods
   jobs : st'.jobs = st.jobs.map f
   keep : ∀ j, (f j).id = j.id ∧ (f j).pod = j.pod ∧ (f j).ns = j.ns ∧ ((f j).phase = j.phase ∨ (f j).phase = 4)
+  keepUid : ∀ j, (f j).uid = j.uid
   live : ∀ j ∈ st.jobs, liveR st' (f j) = true → liveR st j = true ∨ adm = some j
   admOpen : ∀ jj, adm = some jj → jj ∈ st.jobs ∧ jj.phase ≤ 1
 
@@ -63,7 +74,7 @@ theorem findPod_unique (st : ArbSt) (h : (st.pods.map (·.id)).Nodup) (pid : Nat
   eq_of_find_key (fun e : PodA => e.id) pid st.pods p q h hf hq hid
 
 theorem stepRel_refl (st : ArbSt) : StepRel st st id none :=
-  ⟨rfl, by simp, fun j => ⟨rfl, rfl, rfl, Or.inl rfl⟩, fun j _ h => Or.inl h, fun jj h => by simp at h⟩
+  ⟨rfl, by simp, fun j => ⟨rfl, rfl, rfl, Or.inl rfl⟩, fun _ => rfl, fun j _ h => Or.inl h, fun jj h => by simp at h⟩
 
 /-- the successful `markPassed` of the job `jj` found under `jid` -/
 theorem stepRel_markPassed (st : ArbSt) (h1 : (st.jobs.map (·.id)).Nodup) (jid : Nat) (jj : JobA)
@@ -71,7 +82,8 @@ theorem stepRel_markPassed (st : ArbSt) (h1 : (st.jobs.map (·.id)).Nodup) (jid 
     StepRel st (markPassed st false jid).1 (fun j => if j.id == jid then { j with passedAnn := true } else j)
       (if jj.phase ≤ 1 then some jj else none) := by
   have hmem : jj ∈ st.jobs := List.mem_of_find?_eq_some hf
-  refine ⟨by simp [markPassed], by simp [markPassed, setJob], ?_, ?_, ?_⟩
+  refine ⟨by simp [markPassed], by simp [markPassed, setJob], ?_, ?_, ?_, ?_⟩
+  · intro j; by_cases h : j.id == jid <;> simp [h]
   · intro j; by_cases h : j.id == jid <;> simp [h]
   · intro j hj hl
     have hkeep : (if j.id == jid then { j with passedAnn := true } else j).phase = j.phase ∧
@@ -101,7 +113,8 @@ theorem stepRel_markPassed (st : ArbSt) (h1 : (st.jobs.map (·.id)).Nodup) (jid 
 theorem stepRel_failed (st : ArbSt) (jid : Nat) :
     StepRel st { st with jobs := setJob st.jobs jid (fun j => { j with phase := 4 }), waiting := st.waiting.erase jid }
       (fun j => if j.id == jid then { j with phase := 4 } else j) none := by
-  refine ⟨rfl, by simp [setJob], ?_, ?_, fun jj h => by simp at h⟩
+  refine ⟨rfl, by simp [setJob], ?_, ?_, ?_, fun jj h => by simp at h⟩
+  · intro j; by_cases h : j.id == jid <;> simp [h]
   · intro j; by_cases h : j.id == jid <;> simp [h]
   · intro j _ hl
     left
@@ -171,7 +184,9 @@ theorem StepRel.wf {st st' : ArbSt} {f : JobA → JobA} {adm : Option JobA} (R :
     WF st' := by
   have hopen : ∀ j, (f j).phase ≤ 2 → j.phase ≤ 2 := by
     intro j h; rcases (R.keep j).2.2.2 with e | e <;> omega
-  refine ⟨?_, by rw [R.pods]; exact w.podIds, ?_, ?_⟩
+  have hm : ∀ j p, jmatch (f j) p = jmatch j p := by
+    intro j p; simp only [jmatch, (R.keep j).2.1, R.keepUid j]
+  refine ⟨?_, by rw [R.pods]; exact w.podIds, ?_, ?_, ?_⟩
   · rw [R.jobs, List.map_map]
     have : ((fun x : JobA => x.id) ∘ f) = fun x => x.id := by funext j; exact (R.keep j).1
     rw [this]; exact w.jobIds
@@ -180,12 +195,17 @@ theorem StepRel.wf {st st' : ArbSt} {f : JobA → JobA} {adm : Option JobA} (R :
     obtain ⟨j, hj, rfl⟩ := List.mem_map.mp hj'
     rw [(R.keep j).2.1] at hid; rw [(R.keep j).2.2.1]
     exact w.refNs j hj p hp hid
-  · intro a ha b hb pa pb h0 he
-    rw [R.jobs] at ha hb
+  · intro j' hj' p hp h0 hu
+    rw [R.jobs] at hj'; rw [R.pods] at hp ⊢
+    obtain ⟨j, hj, rfl⟩ := List.mem_map.mp hj'
+    rw [(R.keep j).2.1] at h0 ⊢; rw [R.keepUid j] at hu
+    exact w.uidRef j hj p hp h0 hu
+  · intro a ha b hb pa pb p hp m1 m2
+    rw [R.jobs] at ha hb; rw [R.pods] at hp
     obtain ⟨j1, hj1, rfl⟩ := List.mem_map.mp ha
     obtain ⟨j2, hj2, rfl⟩ := List.mem_map.mp hb
-    rw [(R.keep j1).2.1] at h0 he; rw [(R.keep j2).2.1] at he
-    rw [w.uniqueOpen j1 hj1 j2 hj2 (hopen j1 pa) (hopen j2 pb) h0 he]
+    rw [hm] at m1 m2
+    rw [w.uniqueOpen j1 hj1 j2 hj2 (hopen j1 pa) (hopen j2 pb) p hp m1 m2]
 
 theorem liveR_open {st : ArbSt} {j : JobA} (h : liveR st j = true) : j.phase ≤ 2 := by
   simp only [liveR, live, Bool.or_eq_true, Bool.and_eq_true, beq_iff_eq] at h
@@ -218,11 +238,51 @@ theorem jobCount_step {st st' : ArbSt} {f : JobA → JobA} {adm : Option JobA} (
     · exact Or.inl h'
     · right; simp at h'; rw [h']
 
+/-- the two-step lookup of existingPodMigrationJob (by UID, then — only if nothing was found — by namespace/name)
+    finds a job exactly when SOME available job refers to the pod by UID or by namespace/name -/
+theorem hasJob_eq_any (st : ArbSt) (ca : Bool) (v : PodA) :
+    hasJob st ca v = st.jobs.any fun j => live st.arbitrated ca j && jmatch j v := by
+  have key : ∀ l : List JobA,
+      ((l.any fun j => live st.arbitrated ca j && j.pod != 0 && j.uid == v.id) ||
+        (l.any fun j => live st.arbitrated ca j && j.pod == v.id)) =
+      l.any fun j => live st.arbitrated ca j && ((j.pod != 0 && j.uid == v.id) || j.pod == v.id) := by
+    intro l
+    induction l with
+    | nil => rfl
+    | cons j r ih =>
+      simp only [List.any_cons, ← ih]
+      generalize live st.arbitrated ca j = a
+      generalize (j.pod != 0) = b
+      generalize (j.uid == v.id) = c
+      generalize (j.pod == v.id) = d
+      generalize (r.any fun j => live st.arbitrated ca j && j.pod != 0 && j.uid == v.id) = e
+      generalize (r.any fun j => live st.arbitrated ca j && j.pod == v.id) = g
+      cases a <;> cases b <;> cases c <;> cases d <;> cases e <;> cases g <;> rfl
+  unfold hasJob hasJobByUID hasJobByName jmatch
+  rw [← key]
+  cases (st.jobs.any fun j => live st.arbitrated ca j && j.pod != 0 && j.uid == v.id) <;> simp
+
+/-- under `WF` a job is about at most one existing pod -/
+theorem jmatch_unique {st : ArbSt} (w : WF st) {jj : JobA} (hj : jj ∈ st.jobs) {v v' : PodA} (hv : v ∈ st.pods)
+    (hv' : v' ∈ st.pods) (m : jmatch jj v = true) (m' : jmatch jj v' = true) : v.id = v'.id := by
+  simp only [jmatch, Bool.or_eq_true, Bool.and_eq_true, bne_iff_ne, ne_eq, beq_iff_eq] at m m'
+  rcases m with ⟨h0, hu⟩ | hn <;> rcases m' with ⟨h0', hu'⟩ | hn'
+  · omega
+  · rcases w.uidRef jj hj v hv h0 hu with e | e
+    · omega
+    · exact absurd hn'.symm (e v' hv')
+  · rcases w.uidRef jj hj v' hv' h0' hu' with e | e
+    · omega
+    · exact absurd hn.symm (e v hv)
+  · omega
+
 theorem hasJob_step {st st' : ArbSt} {f : JobA → JobA} {adm : Option JobA} (R : StepRel st st' f adm) (v : PodA)
-    (h : hasJob st' true v = true) : hasJob st true v = true ∨ ∃ jj, adm = some jj ∧ jj.pod = v.id := by
-  simp only [hasJob, R.jobs, List.any_map, List.any_eq_true, Function.comp, Bool.and_eq_true, beq_iff_eq] at h ⊢
+    (h : hasJob st' true v = true) : hasJob st true v = true ∨ ∃ jj, adm = some jj ∧ jmatch jj v = true := by
+  rw [hasJob_eq_any] at h ⊢
+  simp only [R.jobs, List.any_map, List.any_eq_true, Function.comp, Bool.and_eq_true] at h ⊢
   obtain ⟨j, hj, hl, hp⟩ := h
-  rw [(R.keep j).2.1] at hp
+  have hm : jmatch (f j) v = jmatch j v := by simp only [jmatch, (R.keep j).2.1, R.keepUid j]
+  rw [hm] at hp
   rcases R.live j hj hl with h' | h'
   · exact Or.inl ⟨j, hj, h', hp⟩
   · exact Or.inr ⟨j, h', hp⟩
@@ -308,13 +368,14 @@ theorem step_global (cfg : ArbCfg) (uf : List Nat) (st : ArbSt) (jid : Nat) (w :
   · left; simp only [h, he, if_true] at hgen ⊢; exact hgen
   · right
     have hK := jobCount_step R w.jobIds (fun j => liveR (processJob cfg uf st jid).1 j && j.pod != 0)
-      (fun j => j.pod != 0) (fun j => live st.arbitrated true j && j.pod != 0 && j.pod != p.id) (fun _ => rfl)
+      (fun j => j.pod != 0) (fun j => live st.arbitrated true j && j.pod != 0 && j.uid != p.id) (fun _ => rfl)
       (fun j => by rw [(R.keep j).2.1]) (by
         intro j hj h1 h2 hne
         have h1' : live st.arbitrated true j = true := h1
-        have : j.pod ≠ p.id := by
+        have : j.uid ≠ p.id := by
           intro e
-          have := w.uniqueOpen j hj jj hjm (liveR_open h1) (by omega) (by simpa using h2) (by rw [e, hid])
+          have := w.uniqueOpen j hj jj hjm (liveR_open h1) (by omega) p hpm
+            (by simp only [jmatch, h2, e]; simp) (by simp [jmatch, hid])
           exact hne (by rw [hadm, this])
         simp [h1', h2, this])
     have hpass : passGlobal cfg st true p = true := by
@@ -347,14 +408,15 @@ theorem step_ns (cfg : ArbCfg) (uf : List Nat) (st : ArbSt) (jid : Nat) (w : WF 
     · right
       have hK := jobCount_step R w.jobIds (fun j => liveR (processJob cfg uf st jid).1 j && j.pod != 0 && j.ns == k)
         (fun j => j.pod != 0 && j.ns == k)
-        (fun j => live st.arbitrated true j && j.pod != 0 && j.pod != p.id && j.ns == p.ns) (fun _ => by simp [Bool.and_assoc])
+        (fun j => live st.arbitrated true j && j.pod != 0 && j.uid != p.id && j.ns == p.ns) (fun _ => by simp [Bool.and_assoc])
         hselk (by
           intro j hj h1 h2 hne
           have h1' : live st.arbitrated true j = true := h1
           simp only [Bool.and_eq_true, bne_iff_ne, ne_eq, beq_iff_eq] at h2
-          have : j.pod ≠ p.id := by
+          have : j.uid ≠ p.id := by
             intro e
-            have := w.uniqueOpen j hj jj hjm (liveR_open h1) (by omega) h2.1 (by rw [e, hid])
+            have := w.uniqueOpen j hj jj hjm (liveR_open h1) (by omega) p hpm
+              (by simp [jmatch, h2.1, e]) (by simp [jmatch, hid])
             exact hne (by rw [hadm, this])
           simp [h1', h2.1, this, h2.2, hns, hk])
       have hpass : passNs cfg st true p = true := by
@@ -384,28 +446,42 @@ theorem step_ns (cfg : ArbCfg) (uf : List Nat) (st : ArbSt) (jid : Nat) (w : WF 
 
 /-- pod counters: at most one more when a job was admitted, not more otherwise -/
 theorem podCount_step {st st' : ArbSt} {f : JobA → JobA} {adm : Option JobA} (R : StepRel st st' f adm)
-    (h3 : (st.pods.map (·.id)).Nodup) (q' q : PodA → Bool)
-    (h : ∀ v ∈ st.pods, q' v = true → q v = true ∨ ∃ jj, adm = some jj ∧ jj.pod = v.id) :
+    (w : WF st) (q' q : PodA → Bool)
+    (h : ∀ v ∈ st.pods, q' v = true → q v = true ∨ ∃ jj, adm = some jj ∧ jmatch jj v = true) :
     st'.pods.countP q' ≤ st.pods.countP q + (if adm.isSome then 1 else 0) := by
   rw [R.pods]
-  cases adm with
+  cases hadm : adm with
   | none =>
     simp only [Option.isSome_none, Bool.false_eq_true, if_false, Nat.add_zero]
-    exact List.countP_mono_left fun v hv hq => (h v hv hq).resolve_right (by simp)
+    exact List.countP_mono_left fun v hv hq => (h v hv hq).resolve_right (by simp [hadm])
   | some jj =>
     simp only [Option.isSome_some, if_true]
-    apply countP_le_add_one (fun e : PodA => e.id) _ _ jj.pod st.pods h3
+    -- the one pod the admitted job is about (if any)
+    apply countP_le_add_one (fun e : PodA => e.id) _ _
+      (((st.pods.find? fun v => jmatch jj v).map (·.id)).getD 0) st.pods w.podIds
     intro v hv hq
     rcases h v hv hq with h' | ⟨x, hx, hp⟩
     · exact Or.inl h'
-    · right; simp at hx; rw [← hp, hx]
+    · right
+      rw [hadm] at hx
+      have hxe : jj = x := by simpa using hx
+      subst hxe
+      cases hf : st.pods.find? (fun v => jmatch jj v) with
+      | none =>
+        have := List.find?_eq_none.mp hf v hv
+        simp [hp] at this
+      | some v0 =>
+        have hv0 : v0 ∈ st.pods := List.mem_of_find?_eq_some hf
+        have hm0 : jmatch jj v0 = true := by simpa using List.find?_some hf
+        simp only [Option.map_some, Option.getD_some]
+        exact jmatch_unique w (R.admOpen jj hadm).1 hv hv0 hp hm0
 
 theorem step_node (cfg : ArbCfg) (uf : List Nat) (st : ArbSt) (jid : Nat) (w : WF st) (n : Nat) (hn : n ≠ 0)
     (hs : gateSkipped cfg 3 = false) (hl : 0 < cfg.maxNode) :
     cntNode (processJob cfg uf st jid).1 n ≤ cntNode st n + (if exemptAdm cfg uf st jid then 1 else 0) ∨
       cntNode (processJob cfg uf st jid).1 n ≤ cfg.maxNode.toNat := by
   obtain ⟨f, adm, R, I⟩ := processJob_rel cfg uf st jid w.jobIds
-  have hgen := podCount_step R w.podIds (fun v => v.node == n && hasJob (processJob cfg uf st jid).1 true v)
+  have hgen := podCount_step R w (fun v => v.node == n && hasJob (processJob cfg uf st jid).1 true v)
     (fun v => v.node == n && hasJob st true v) (by
       intro v _ hq
       simp only [Bool.and_eq_true] at hq
@@ -423,7 +499,7 @@ theorem step_node (cfg : ArbCfg) (uf : List Nat) (st : ArbSt) (jid : Nat) (w : W
           st.pods.countP (fun v => v.id != p.id && v.node == p.node && hasJob st true v) + 1 := by
         rw [R.pods]
         apply countP_le_add_one (fun e : PodA => e.id) _ _ p.id st.pods w.podIds
-        intro v _ hq
+        intro v hvm hq
         simp only [Bool.and_eq_true, beq_iff_eq] at hq
         by_cases hv : v.id = p.id
         · exact Or.inr hv
@@ -433,7 +509,7 @@ theorem step_node (cfg : ArbCfg) (uf : List Nat) (st : ArbSt) (jid : Nat) (w : W
           · rw [hadm] at hx
             have : jj = x := by simpa using hx
             subst this
-            exact absurd (hp.symm.trans hid.symm) hv
+            exact absurd (jmatch_unique w hjm hvm hpm hp (by simp [jmatch, hid])) hv
       have hpass : passNode cfg st true p = true := by
         simp only [retryableChecks, Bool.and_eq_true] at hck; exact hck.1.1.2
       have hoff : limitOff cfg.maxNode = false := by simp [limitOff]; omega
@@ -459,7 +535,8 @@ theorem step_node (cfg : ArbCfg) (uf : List Nat) (st : ArbSt) (jid : Nat) (w : W
         · rw [hadm] at hx
           have : jj = x := by simpa using hx
           subst this
-          have hvp : v = p := findPod_unique st w.podIds p.id p v (findPod_of_mem w.podIds hpm) hv (hp.symm.trans hid.symm)
+          have hvp : v = p := findPod_unique st w.podIds p.id p v (findPod_of_mem w.podIds hpm) hv
+            (jmatch_unique w hjm hv hpm hp (by simp [jmatch, hid]))
           subst hvp
           exact absurd hq.1 hk
       omega
@@ -475,7 +552,7 @@ theorem foldl_addNew_pod (l : List JobA) (acc : List Nat) :
   rw [List.foldl_map]
 
 /-- a pod of `p`'s workload, other than `p`, with a live job in `p`'s namespace is one of `migratingPods` -/
-theorem mem_migrating {st : ArbSt} (h3 : (st.pods.map (·.id)).Nodup) {p v : PodA} (hv : v ∈ st.pods)
+theorem mem_migrating {st : ArbSt} (w : WF st) {p v : PodA} (hv : v ∈ st.pods) (hpm : p ∈ st.pods)
     (hw : v.wl = p.wl) (hw0 : p.wl ≠ 0) (hne : v.id ≠ p.id) (hj : hasJobNs st p.ns v = true) :
     v.id ∈ migrating st true p := by
   unfold migrating
@@ -484,9 +561,14 @@ theorem mem_migrating {st : ArbSt} (h3 : (st.pods.map (·.id)).Nodup) {p v : Pod
   simp only [hasJobNs, List.any_eq_true, Bool.and_eq_true, beq_iff_eq, bne_iff_ne, ne_eq, liveR] at hj
   obtain ⟨j, hjm, ⟨⟨hl, hn⟩, h0⟩, hp⟩ := hj
   refine List.mem_map.mpr ⟨j, List.mem_filter.mpr ⟨hjm, ?_⟩, hp⟩
-  have hfp : findPod st v.id = some v := findPod_of_mem h3 hv
+  have hfp : findPod st v.id = some v := findPod_of_mem w.podIds hv
   have h0' : ¬ v.id = 0 := hp ▸ h0
-  simp [hl, hn, h0', hp, hne, hfp, hw, hw0]
+  have hu : ¬ j.uid = p.id := by
+    intro e
+    rcases w.uidRef j hjm p hpm h0 e with e' | e'
+    · exact hne (hp.symm.trans e')
+    · exact e' v hv hp.symm
+  simp [hl, hn, h0', hp, hu, hfp, hw, hw0]
 
 theorem passWorkload_migr {cfg : ArbCfg} {st : ArbSt} {p : PodA} (h : passWorkload cfg st true p = true)
     (hs : gateSkipped cfg 2 = false) (hw : p.wl ≠ 0) :
@@ -531,13 +613,13 @@ theorem step_migr (cfg : ArbCfg) (uf : List Nat) (st : ArbSt) (jid : Nat) (w : W
     cntMigr (processJob cfg uf st jid).1 wl k ≤ cntMigr st wl k + (if exemptAdm cfg uf st jid then 1 else 0) ∨
       cntMigr (processJob cfg uf st jid).1 wl k ≤ max (wlLimit cfg wl cfg.mmKind cfg.maxMigr) 1 := by
   obtain ⟨f, adm, R, I⟩ := processJob_rel cfg uf st jid w.jobIds
-  have hgen := podCount_step R w.podIds (fun q => q.wl == wl && hasJobNs (processJob cfg uf st jid).1 k q)
+  have hgen := podCount_step R w (fun q => q.wl == wl && hasJobNs (processJob cfg uf st jid).1 k q)
     (fun q => q.wl == wl && hasJobNs st k q) (by
       intro v _ hq
       simp only [Bool.and_eq_true] at hq
       rcases hasJobNs_step R k v hq.2 with h' | ⟨x, hx, hp, _⟩
       · left; simp [hq.1, h']
-      · exact Or.inr ⟨x, hx, hp⟩)
+      · exact Or.inr ⟨x, hx, by simp [jmatch, hp]⟩)
   rcases adm_cases R I w with h | ⟨h, he⟩ | ⟨jj, p, hadm, hjm, hph, h0, hpm, hid, hns, hck⟩
   · left; subst h
     simp only [Option.isSome_none, Bool.false_eq_true, if_false, Nat.add_zero] at hgen
@@ -563,7 +645,7 @@ theorem step_migr (cfg : ArbCfg) (uf : List Nat) (st : ArbSt) (jid : Nat) (w : W
         · rw [hvp]; exact List.mem_cons_self ..
         · apply List.mem_cons_of_mem
           rcases hasJobNs_step R k v hq.2 with h' | ⟨x, hx, hp, _⟩
-          · exact mem_migrating w.podIds hv (hq.1.trans hk1.symm) (by rw [hk1]; exact hw) hvp (by rw [hns, hk2]; exact h')
+          · exact mem_migrating w hv hpm (hq.1.trans hk1.symm) (by rw [hk1]; exact hw) hvp (by rw [hns, hk2]; exact h')
           · rw [hadm] at hx
             have : jj = x := by simpa using hx
             subst this
@@ -591,7 +673,7 @@ theorem step_unav (cfg : ArbCfg) (uf : List Nat) (st : ArbSt) (jid : Nat) (w : W
     cntUnav (processJob cfg uf st jid).1 wl k ≤ cntUnav st wl k + (if exemptAdm cfg uf st jid then 1 else 0) ∨
       cntUnav (processJob cfg uf st jid).1 wl k ≤ wlLimit cfg wl cfg.muKind cfg.maxUnav := by
   obtain ⟨f, adm, R, I⟩ := processJob_rel cfg uf st jid w.jobIds
-  have hgen := podCount_step R w.podIds
+  have hgen := podCount_step R w
     (fun q => q.wl == wl && ((q.ns == k && !podAvail q) || hasJobNs (processJob cfg uf st jid).1 k q))
     (fun q => q.wl == wl && ((q.ns == k && !podAvail q) || hasJobNs st k q)) (by
       intro v _ hq
@@ -600,7 +682,7 @@ theorem step_unav (cfg : ArbCfg) (uf : List Nat) (st : ArbSt) (jid : Nat) (w : W
       · left; simp only [Bool.and_eq_true, Bool.or_eq_true]; exact ⟨hq.1, Or.inl hu⟩
       · rcases hasJobNs_step R k v hj with h' | ⟨x, hx, hp, _⟩
         · left; simp only [Bool.and_eq_true, Bool.or_eq_true]; exact ⟨hq.1, Or.inr h'⟩
-        · exact Or.inr ⟨x, hx, hp⟩)
+        · exact Or.inr ⟨x, hx, by simp [jmatch, hp]⟩)
   rcases adm_cases R I w with h | ⟨h, he⟩ | ⟨jj, p, hadm, hjm, hph, h0, hpm, hid, hns, hck⟩
   · left; subst h
     simp only [Option.isSome_none, Bool.false_eq_true, if_false, Nat.add_zero] at hgen
@@ -636,7 +718,7 @@ theorem step_unav (cfg : ArbCfg) (uf : List Nat) (st : ArbSt) (jid : Nat) (w : W
             exact ⟨⟨hq.1.trans hk1.symm, by rw [hns, hk2]; exact hu.1⟩, hu.2⟩
           · right
             rcases hasJobNs_step R k v hj with h' | ⟨x, hx, hp, _⟩
-            · exact mem_migrating w.podIds hv (hq.1.trans hk1.symm) (by rw [hk1]; exact hw) hvp (by rw [hns, hk2]; exact h')
+            · exact mem_migrating w hv hpm (hq.1.trans hk1.symm) (by rw [hk1]; exact hw) hvp (by rw [hns, hk2]; exact h')
             · rw [hadm] at hx
               have : jj = x := by simpa using hx
               subst this
@@ -688,3 +770,9 @@ theorem fold_bound (cfg : ArbCfg) (uf : List Nat) (C : ArbSt → Nat) (L : Nat)
     have hs := hstep st jid w
     simp only [round, List.foldl_cons, roundExempt] at h ⊢
     rcases hs with hs | hs <;> omega
+/-- the lookup written as an if/else on the pod's UID instead of a fall-back (NOT the code as it is; the shape refuted
+    by `ifelse_lookup_counterexample`): a pod that has a UID (`v.id ≠ 0`) is looked up only under the UID index -/
+def hasJobIfElse (st : ArbSt) (ca : Bool) (v : PodA) : Bool :=
+  if v.id != 0 then hasJobByUID st ca v else hasJobByName st ca v
+
+end KoordVerif.C16
